@@ -12,7 +12,7 @@ namespace Sip
 structure KeyValue where
   key : Bytes
   value : Bytes
-  deriving Repr, BEq, DecidableEq
+  deriving Repr, DecidableEq
 
 /-- `KeyValue.Write`: key, then `=value` only when the value is non-empty. -/
 def KeyValue.encode (kv : KeyValue) : Bytes :=
@@ -51,7 +51,7 @@ structure SIPURI where
   port : Int := 0
   params : List KeyValue := []
   headers : List KeyValue := []
-  deriving Repr, BEq, DecidableEq
+  deriving Repr, DecidableEq
 
 /-- `parseUriParameters`: every `;`-separated piece is a parameter; a piece without `=` has the
 empty value. -/
@@ -139,7 +139,7 @@ def SIPURI.getPort (u : SIPURI) : Int :=
 inductive AddrSpec where
   | sip (u : SIPURI)
   | abs (s : Bytes)
-  deriving Repr, BEq, DecidableEq
+  deriving Repr, DecidableEq
 
 def parseAddrSpec (s : Bytes) : Option AddrSpec :=
   if hasPrefix sipPrefix s || hasPrefix sipsPrefix s then (parseSipURI s).map AddrSpec.sip
@@ -156,7 +156,7 @@ def AddrSpec.sipURI? : AddrSpec → Option SIPURI
 structure NameAddr where
   display : Bytes
   addr : AddrSpec
-  deriving Repr, BEq, DecidableEq
+  deriving Repr, DecidableEq
 
 /-- `ParseNameAddr`: first `<`, first `>`, error unless both exist and `<` comes first. -/
 def parseNameAddr (s : Bytes) : Option NameAddr :=
@@ -181,7 +181,7 @@ structure ViaParam where
   host : Bytes
   port : Int
   params : List KeyValue
-  deriving Repr, BEq, DecidableEq
+  deriving Repr, DecidableEq
 
 def ViaParam.getPort (vp : ViaParam) : Int :=
   if vp.port != 0 then vp.port
@@ -242,7 +242,7 @@ def encodeVia (v : List ViaParam) : Bytes := encodeCommaList ViaParam.encode v
 structure RouteParam where
   nameAddr : NameAddr
   params : List KeyValue
-  deriving Repr, BEq, DecidableEq
+  deriving Repr, DecidableEq
 
 /-- `parseRouteParam` / `ParseRecRoute`. -/
 def parseRouteParam (s : Bytes) : Option RouteParam :=
@@ -271,7 +271,7 @@ structure FromTo where
   nameAddr : Option NameAddr
   addrSpec : Option AddrSpec
   params : List KeyValue
-  deriving Repr, BEq, DecidableEq
+  deriving Repr, DecidableEq
 
 def parseFromToParams (params : Bytes) : Option (List KeyValue) :=
   if params.length = 0 then some [] else mapM? parseGenericParam (split 59 params)
@@ -321,7 +321,7 @@ def FromTo.getTag (f : FromTo) : Option Bytes := getParam f.params (str "tag")
 structure CSeq where
   seq : Int
   method : Bytes
-  deriving Repr, BEq, DecidableEq
+  deriving Repr, DecidableEq
 
 def parseCSeq (s : Bytes) : Option CSeq :=
   match fields s with
